@@ -860,6 +860,28 @@ example (u : Expr (String × Nat)) :
       [[mul (const (1/2)) (add (D ("x", 0) u) (D ("x", 0) u)), mul (const (1/2)) (add (D ("x", 1) u) (D ("x", 0) u))],
        [mul (const (1/2)) (add (D ("x", 0) u) (D ("x", 1) u)), mul (const (1/2)) (add (D ("x", 1) u) (D ("x", 1) u))]] := rfl
 
+/-! ## which short-circuits are sound -/
+
+/-- the coded short-circuit `grad.grad_fn is None → continue` is sound: a gradient whose expression mentions no
+    coordinate at all has derivative zero with respect to everything -/
+theorem no_graph_zero (x : V) (ρ : V → ℝ) (g : Expr V) (h : vars g = []) : eval ρ (D x g) = 0 :=
+  const_zero x ρ g (by simp [h])
+
+/-- a short-circuit on the VALUE of the gradient is not sound: at a stationary point the gradient vanishes although the
+    laplacian does not (`u = x₀² + 3x₁²` at the origin: gradient (0,0), laplacian 8) — the model has no such rule, and
+    evaluation points of this kind are part of the correspondence -/
+theorem vanishing_gradient_not_zero_laplacian :
+    let u : Expr (String × Nat) := add (pow (var ("x", 0)) 2) (mul (const 3) (pow (var ("x", 1)) 2))
+    let vs : List (VarT (String × Nat)) := [[("x", 0), ("x", 1)]]
+    ∀ ρ : String × Nat → ℝ, ρ ("x", 0) = 0 → ρ ("x", 1) = 0 →
+      (grad [u] vs).map (eval ρ) = [0, 0] ∧ (laplacian [u] vs).map (eval ρ) = [8] := by
+  intro u vs ρ h0 h1
+  constructor
+  · simp [u, vs, grad_eq, sumE, D, h0, h1]
+  · rw [laplacian_spec]
+    simp [u, vs, D, h0, h1]
+    norm_num
+
 /-! ## non-vacuity: concrete instances of the hypotheses used above -/
 
 section examples
